@@ -12,7 +12,7 @@ package config
 // ---- C18: an accepted pipeline has no dangling reference; C08: every stage owns its task
 //@ func buildPipeline
 //@   requires emptyG(g) && cfgOK(cfg)
-//@   modifies contents(g.nodes), contents(g.from), contents(g.to)
+//@   modifies contents(g.nodes), contents(g.from), contents(g.to), cdom, cval
 //@   ensures #C18.error-means-nil result#1 != nil ==> result == nil
 //@   ensures #C18.accepted-wf result#1 == nil ==> result == g && wfS(g) && depsAre(g) && hasWork(g)
 //@   ensures #C08.stage-owns-task result#1 == nil ==> (forall n string :: n in g.nodes && g.nodes[n].Task != nil ==> fresh(g.nodes[n].Task))
@@ -43,11 +43,11 @@ package config
 // ---- C15: thin safety contracts of the loader (what callers guarantee, what results look like)
 //@ func buildTask
 //@   requires def != nil && lc != nil
-//@   nomod
+//@   modifies cdom, cval
 //@   ensures result#1 == nil ==> result != nil
 //@ func buildContext
 //@   requires def != nil
-//@   nomod
+//@   modifies cdom, cval
 //@   ensures result#1 == nil ==> result != nil
 //@ func buildWatcher
 //@   requires def != nil && cfg != nil
